@@ -174,13 +174,14 @@ class Assign:
             if not self.missing:
                 raise
 
-            remaining_path = self._orig_path[pae.part_idx + 1:]
+            # the rest of the path is built on the fresh object, not in the scope
+            remaining_path = self._orig_path[pae.part_idx + 1:].from_t()
             # val is already evaluated: keep it as it is (Val) in the nested assignment
             val = scope[glom](self.missing(), Assign(remaining_path, Val(val), missing=self.missing), scope)
 
             op, arg = self._orig_path.items()[pae.part_idx]
             path = self._orig_path[:pae.part_idx]
-            dest = scope[glom](dest_target, path, scope)
+            dest = scope[glom](dest_target, path.from_t(), scope)
 
         # TODO: forward-detect immutable dest?
         _apply = lambda dest: _assign_op(
